@@ -9,11 +9,25 @@
 #define HA_VAL(p) ((p) == NULL ? 0ULL : (unsigned long long)(p)->value)
 /* a KSI_Integer that KSI_Integer_free really releases (values below 256 live in a static pool) */
 #define HA_HEAP_INT(p) ((p) != NULL && (p)->value >= 256)
+/* function form (conditions of assigns/frees clauses must not contain ?:) */
+unsigned long long ha_val_fn(const KSI_Integer *p) { if (p == NULL) return 0; return p->value; }
 /* the same two views of the ENTRY state.  __CPROVER_old() only takes lvalue-like expressions (no ?:), so the
  * pointer and the pointee are snapshotted separately; the pointee snapshot is only looked at when the pointer
  * snapshot is not NULL. */
 #define HA_OLDVAL(p) (__CPROVER_old(p) == NULL ? 0ULL : (unsigned long long)__CPROVER_old((p)->value))
 #define HA_OLD_HEAP_INT(p) (__CPROVER_old(p) != NULL && __CPROVER_old((p)->value) >= 256)
+/* KSI_Integer_free(old p) happened exactly once: a shared heap integer loses exactly one reference (the release of the
+ * last reference is checked by the harness: real KSI_Config_free of both configurations afterwards, no double free,
+ * no leak under --memory-leak-check; __CPROVER_was_freed cannot be used in contracts that are also REPLACED: the dfcc
+ * library looks the pointer up in the wrong write set). */
+#define HA_RELEASED_ONCE(p) IMPLIES(HA_OLD_HEAP_INT(p) && __CPROVER_old((p)->ref) > 1, __CPROVER_old(p)->ref == __CPROVER_old((p)->ref) - 1)
+#define HA_NOT_RELEASED(p) IMPLIES(__CPROVER_old(p) != NULL, __CPROVER_old(p)->ref == __CPROVER_old((p)->ref))
+
+/* The pointee snapshots __CPROVER_old((p)->value) are taken unconditionally at entry; when p is NULL the snapshot is
+ * never looked at (see HA_OLDVAL).  In --replace-call-with-contract mode CBMC would otherwise flag that ghost read. */
+#pragma CPROVER check push
+#pragma CPROVER check disable "pointer"
+#pragma CPROVER check disable "pointer-primitive"
 
 /* ---- range predicates: exactly the documented ranges ---------------------------------------- */
 static bool isMaxLevelValid(KSI_uint64_t val)
@@ -43,29 +57,41 @@ __CPROVER_assigns();
  *             established by KSI_Config_new: all fields NULL)
  *   ensures   returns KSI_OK; new consolidated value == MERGE(old consolidated, pushed)
  *             *updated == old(*updated) || value changed            ("updated iff changed", sticky flag)
+ *             (value changed  <=>  MERGE(old, pushed) != old, given the first ensures)
  *             changed  => the pushed KSI_Integer object MOVED: ha field == old resp field, resp field NULL,
- *                         old ha integer released exactly when it is a heap integer
+ *                         old ha integer handed to KSI_Integer_free exactly once (one reference dropped,
+ *                         released with the last one; pooled integers untouched)
  *             !changed => both field pointers unchanged, nothing released
- *   assigns   only the two fields and *updated; frees only the old ha integer. */
+ *             (pointer facts are written with __CPROVER_pointer_equals: when the contract REPLACES a call, a plain
+ *             "p == q" assumption on a havocked pointer leaves CBMC's points-to set empty and later reads through p
+ *             return garbage)
+ *   assigns   only the two fields, *updated and the reference count of the old ha integer;
+ *   frees     the old ha integer, and only when the spec says the field changes. */
+#define HA_SPEC_CHANGED(FIELD, MERGE) (MERGE(HA_OLDVAL(haCfg->FIELD), HA_OLDVAL(respCfg->FIELD)) != HA_OLDVAL(haCfg->FIELD))
 #define HA_CONSOLIDATE_CONTRACT(FN, FIELD, MERGE)                                                             \
 static int FN(KSI_Config *haCfg, KSI_Config *respCfg, bool *updated)                                          \
 __CPROVER_requires(haCfg != NULL && respCfg != NULL && updated != NULL && haCfg != respCfg)                  \
 __CPROVER_requires(MERGE(HA_VAL(haCfg->FIELD), 0) == HA_VAL(haCfg->FIELD))                                    \
+__CPROVER_requires(IMPLIES(HA_HEAP_INT(haCfg->FIELD), haCfg->FIELD->ref >= 1))                               \
 __CPROVER_ensures(__CPROVER_return_value == KSI_OK)                                                           \
-__CPROVER_ensures(HA_VAL(haCfg->FIELD) == MERGE(HA_OLDVAL(haCfg->FIELD), HA_OLDVAL(respCfg->FIELD))) \
-__CPROVER_ensures(*updated == (__CPROVER_old(*updated) || HA_VAL(haCfg->FIELD) != HA_OLDVAL(haCfg->FIELD))) \
-__CPROVER_ensures(HA_VAL(haCfg->FIELD) != HA_OLDVAL(haCfg->FIELD)                                 \
-		? (haCfg->FIELD == __CPROVER_old(respCfg->FIELD) && respCfg->FIELD == NULL &&                         \
-		   IFF(__CPROVER_was_freed(__CPROVER_old(haCfg->FIELD)), HA_OLD_HEAP_INT(haCfg->FIELD)))   \
-		: (haCfg->FIELD == __CPROVER_old(haCfg->FIELD) && respCfg->FIELD == __CPROVER_old(respCfg->FIELD) &&  \
-		   !__CPROVER_was_freed(__CPROVER_old(haCfg->FIELD))))                                                \
+/* pointers first (decided by the ENTRY state only), so that the clause is constructive when assumed */      \
+__CPROVER_ensures(HA_SPEC_CHANGED(FIELD, MERGE)                                                               \
+		? (__CPROVER_pointer_equals(haCfg->FIELD, __CPROVER_old(respCfg->FIELD)) && respCfg->FIELD == NULL && \
+		   HA_RELEASED_ONCE(haCfg->FIELD))                                                                    \
+		: (__CPROVER_pointer_equals(haCfg->FIELD, __CPROVER_old(haCfg->FIELD)) &&                             \
+		   __CPROVER_pointer_equals(respCfg->FIELD, __CPROVER_old(respCfg->FIELD)) &&                         \
+		   HA_NOT_RELEASED(haCfg->FIELD)))                                                                    \
+__CPROVER_ensures(HA_VAL(haCfg->FIELD) == MERGE(HA_OLDVAL(haCfg->FIELD), HA_OLDVAL(respCfg->FIELD)))          \
+__CPROVER_ensures(*updated == (__CPROVER_old(*updated) || HA_SPEC_CHANGED(FIELD, MERGE)))                     \
 __CPROVER_assigns(haCfg->FIELD, respCfg->FIELD, *updated)                                                     \
-__CPROVER_frees(haCfg->FIELD)
+__CPROVER_assigns(haCfg->FIELD != NULL: haCfg->FIELD->ref)                                                    \
+__CPROVER_frees(MERGE(ha_val_fn(haCfg->FIELD), ha_val_fn(respCfg->FIELD)) != ha_val_fn(haCfg->FIELD): haCfg->FIELD)
 
 HA_CONSOLIDATE_CONTRACT(KSI_Config_consolidateMaxLevel, maxLevel, spec_ha_merge_level);
 HA_CONSOLIDATE_CONTRACT(KSI_Config_consolidateAggrPeriod, aggrPeriod, spec_ha_merge_period);
 HA_CONSOLIDATE_CONTRACT(KSI_Config_consolidateMaxRequests, maxRequests, spec_ha_merge_requests);
 HA_CONSOLIDATE_CONTRACT(KSI_Config_consolidateCalendarFirstTime, calendarFirstTime, spec_ha_merge_first);
 HA_CONSOLIDATE_CONTRACT(KSI_Config_consolidateCalendarLastTime, calendarLastTime, spec_ha_merge_last);
+#pragma CPROVER check pop
 
 #endif
